@@ -22,7 +22,12 @@ Definition dtv := option (Z * Z).                 (* None | TimeInterval(start, 
 Definition pdict := list (Z * Z).                 (* _properties: insertion-ordered key -> value *)
 
 Inductive rd := RBounds | RCentroid | RArea | RVolume | RProps | RGeoJson | RWkt | RShapely
-              | RDt | RHoles.
+              | RDt | RHoles
+              (* reads called WITH their documented arguments *)
+              | RGeoJsonArgs (extra : pdict)      (* to_geojson(properties={...}, k=...) *)
+              | RWktK                             (* to_wkt(k=...) *)
+              | RCoordsK                          (* bounding_coords(k=...) *)
+              | RRingsK.                          (* linear_rings(k=...) *)
 Inductive op :=
 | Read (r : rd)
 | ToPolygon
@@ -134,6 +139,15 @@ Section State.
     | RShapely => (fill_shapely s, Ok (RNoShape, OShapely (v_shapely s)))
     | RDt => (s, Ok (RNoShape, ODt (dt s)))
     | RHoles => (s, Ok (RNoShape, OHoles (length (holes s))))
+    (* {**self._properties_json, **properties}: a NEW dict; neither the shape's _properties nor the
+       caller's dict is written.  (The geometry part depends on k; like every geometry-valued answer
+       it is compared with a fresh object's in the harness, not here.) *)
+    | RGeoJsonArgs extra =>
+        (s, Ok (RNoShape, OGeoJson (gj_of (kd s) (geom s) (holes s))
+                                   (fold_left (fun p kv => set_assoc (fst kv) (snd kv) p) extra (props s)) (dt s)))
+    | RWktK => (s, Ok (RNoShape, ONone))
+    | RCoordsK | RRingsK =>                                   (* PolygonLikeMixin only *)
+        if has_volume (kd s) then (s, Ok (RNoShape, ONone)) else (s, Err OtherError)
     end.
 
   (* to_polygon(): GeoPolygon returns self; box / circle / ellipse build GeoPolygon(coords,
